@@ -777,7 +777,9 @@ def aipw_calculator(y, a, py_a, py_n, pa1, pa0, difference=True, weights=None, s
                     var_rd.append(np.var((y1s - y0s) - estimate, ddof=1))
                 var = np.mean(var_rd) / y.shape[0]
         else:
-            estimate = DescrStatsW(y1, weights=weights).mean - DescrStatsW(y0, weights=weights).mean
+            obs = ~np.isnan(y1 - y0)  # rows with an observed outcome, as np.nanmean does without weights
+            estimate = (DescrStatsW(y1[obs], weights=np.asarray(weights)[obs]).mean -
+                        DescrStatsW(y0[obs], weights=np.asarray(weights)[obs]).mean)
             var = np.nan
 
     # Calculating ACE as a ratio
@@ -791,7 +793,9 @@ def aipw_calculator(y, a, py_a, py_n, pa1, pa0, difference=True, weights=None, s
                   ((1-a)*(y-py_o)) / (np.mean(py_n)*pa0) + (py_n - np.mean(py_n)))
             var = np.nanvar(ic, ddof=1) / y.shape[0]
         else:
-            estimate = DescrStatsW(y1, weights=weights).mean / DescrStatsW(y0, weights=weights).mean
+            obs1, obs0 = ~np.isnan(y1), ~np.isnan(y0)  # as np.nanmean(y1) / np.nanmean(y0) does without weights
+            estimate = (DescrStatsW(y1[obs1], weights=np.asarray(weights)[obs1]).mean /
+                        DescrStatsW(y0[obs0], weights=np.asarray(weights)[obs0]).mean)
             var = np.nan
 
     return estimate, var
